@@ -186,39 +186,16 @@ fn insert_before_end(text: &str, is_cte: bool, extra: &str) -> String {
     }
 }
 
-fn check_id_locality(ctx: &Ctx, name: &str, text: &str, is_cte: bool) -> u64 {
-    let Outcome::Ok(m0) = corpus::convert_text(text, is_cte) else { return 0 };
-    let ids0 = ids_of(&m0);
-    let mut n = 0;
-    for (kind, extra) in EXTRA_DEFS.iter() {
-        if extra.is_empty() {
-            continue;
-        }
-        // legacy files may lack the names the extra definitions refer to
-      for place in 0..2 {
-        // appended at the end, and inserted before the first FLOOR block (so that positions in the file shift)
-        let t1 = if place == 0 { insert_before_end(text, is_cte, extra) } else { match insert_before_first_floor(text, extra) { Some(t) => t, None => continue } };
-        n += 1;
-        match corpus::convert_text(&t1, is_cte) {
-            Outcome::Ok(m1) => {
-                let ids1 = ids_of(&m1);
-                for (k, id) in &ids0 {
-                    match ids1.get(k) {
-                        Some(id1) if id1 == id => {}
-                        other => {
-                            let coll = k.split(':').next().unwrap_or("");
-                            ctx.violation(&format!("id-locality:{}-changes-when-adding-{}", coll, kind), &format!("{}: id of {} changes from {} to {:?} after appending an unrelated {} definition", name, k, id, other, kind), json!({"part": "id-locality", "file": name, "added": kind, "element": k}));
-                            break;
-                        }
-                    }
-                }
-            }
-            Outcome::Err(_) => {} // e.g. legacy file without the referenced catalogue names: not an id question
-            Outcome::Panic(p) => ctx.violation(&format!("panic:{}", panic_key(&p)), &p, json!({"part": "id-locality", "file": name, "added": kind})),
-        }
-      }
-    }
-    n
+/// one modified project text and what is demanded of it
+struct Variant {
+    text: String,
+    case: Value,
+    /// violation key suffix when a pre-existing id changes
+    id_key: String,
+    what: String,
+    /// Some(block type): the text holds a definition twice - two conversions must give the same bytes
+    duplicate_of: Option<String>,
+    check_ids: bool,
 }
 
 /// (type, byte range) of every block `"name" = TYPE ... ..` of a BDL text
@@ -246,14 +223,33 @@ fn blocks_of(text: &str) -> Vec<(String, usize, usize)> {
     v
 }
 
-/// The first block of every type written twice (straight after itself, or again at the end of the document): the same
-/// definition given twice is still one definition, so every conversion of that document gives the same bytes and
-/// the elements that were there keep their ids.
-fn check_duplicated_definitions(ctx: &Ctx, name: &str, text: &str, is_cte: bool, places: usize) -> u64 {
-    let Outcome::Ok(m0) = corpus::convert_text(text, is_cte) else { return 0 };
-    let ids0 = ids_of(&m0);
+/// (1) every unrelated definition appended at the end and inserted before the first FLOOR block
+fn variants_added(name: &str, text: &str, is_cte: bool) -> Vec<Variant> {
+    let mut v = vec![];
+    for (kind, extra) in EXTRA_DEFS.iter() {
+        if extra.is_empty() {
+            continue;
+        }
+        for place in 0..2 {
+            let t1 = if place == 0 {
+                insert_before_end(text, is_cte, extra)
+            } else {
+                match insert_before_first_floor(text, extra) {
+                    Some(t) => t,
+                    None => continue,
+                }
+            };
+            v.push(Variant { text: t1, case: json!({"part": "id-locality", "file": name, "added": kind, "place": place}), id_key: format!("changes-when-adding-{}", kind), what: format!("after appending an unrelated {} definition", kind), duplicate_of: None, check_ids: true });
+        }
+    }
+    v
+}
+
+/// (2) the first block of every type written twice (straight after itself, or again at the end of the document): the
+/// same definition given twice is still one definition
+fn variants_duplicated(name: &str, text: &str, is_cte: bool, places: usize) -> Vec<Variant> {
     let mut seen = std::collections::BTreeSet::new();
-    let mut n = 0;
+    let mut v = vec![];
     for (ty, a, b) in blocks_of(text) {
         if !seen.insert(ty.clone()) {
             continue;
@@ -261,42 +257,15 @@ fn check_duplicated_definitions(ctx: &Ctx, name: &str, text: &str, is_cte: bool,
         let block = &text[a..b];
         for place in 0..places {
             let t1 = if place == 0 { format!("{}{}{}", &text[..b], block, &text[b..]) } else { insert_before_end(text, is_cte, block) };
-            n += 1;
-            let case = || json!({"part": "duplicated-definition", "file": name, "block_type": ty, "place": if place == 0 { "after itself" } else { "at the end" }, "block": block});
-            let r1 = corpus::convert_text(&t1, is_cte);
-            let r2 = std::thread::scope(|s| s.spawn(|| corpus::convert_text(&t1, is_cte)).join()).unwrap_or(Outcome::Panic("thread".into()));
-            match (r1, r2) {
-                (Outcome::Ok(m1), Outcome::Ok(m2)) => {
-                    if m1.as_json().unwrap_or_default() != m2.as_json().unwrap_or_default() {
-                        ctx.violation(&format!("repeat-differs:duplicated-{}", ty), &format!("{}: two conversions of the same document (a {} block written twice) give different JSON", name, ty), case());
-                        continue;
-                    }
-                    if place == 0 {
-                        let ids1 = ids_of(&m1);
-                        for (k, id) in &ids0 {
-                            if let Some(id1) = ids1.get(k) {
-                                if id1 != id {
-                                    ctx.violation(&format!("id-locality:{}-changes-when-duplicating-{}", k.split(':').next().unwrap_or(""), ty), &format!("{}: id of {} changes from {} to {} when a {} block is written twice", name, k, id, id1, ty), case());
-                                    break;
-                                }
-                            }
-                        }
-                    }
-                }
-                (Outcome::Err(_), Outcome::Err(_)) => {}
-                (Outcome::Panic(p), _) | (_, Outcome::Panic(p)) => ctx.violation(&format!("panic:{}", panic_key(&p)), &p, case()),
-                _ => ctx.violation(&format!("repeat-differs:duplicated-{}:ok-vs-error", ty), &format!("{}: one conversion succeeds and the other fails", name), case()),
-            }
+            v.push(Variant { text: t1, case: json!({"part": "duplicated-definition", "file": name, "block_type": ty, "place": if place == 0 { "after itself" } else { "at the end" }, "block": block}), id_key: format!("changes-when-duplicating-{}", ty), what: format!("when a {} block is written twice", ty), duplicate_of: Some(ty.clone()), check_ids: place == 0 });
         }
     }
-    n
+    v
 }
 
-/// An unrelated definition that borrows the name of an existing definition of another kind (every kind of object has
-/// its own namespace in HULC): still no existing id may change.
-fn check_id_locality_borrowed_names(ctx: &Ctx, name: &str, text: &str, is_cte: bool) -> u64 {
-    let Outcome::Ok(m0) = corpus::convert_text(text, is_cte) else { return 0 };
-    let ids0 = ids_of(&m0);
+/// (3) an unrelated definition that borrows the name of an existing definition of another kind (every kind of object
+/// has its own namespace in HULC)
+fn variants_borrowed_names(name: &str, text: &str, is_cte: bool) -> Vec<Variant> {
     let families: [&[&str]; 2] = [&["DAY-SCHEDULE-PD", "WEEK-SCHEDULE-PD", "SCHEDULE-PD"], &["MATERIAL", "LAYERS", "GLASS-TYPE", "NAME-FRAME", "GAP"]];
     let mut first_of: BTreeMap<String, String> = BTreeMap::new();
     for (ty, a, _) in blocks_of(text) {
@@ -305,7 +274,7 @@ fn check_id_locality_borrowed_names(ctx: &Ctx, name: &str, text: &str, is_cte: b
             first_of.entry(ty).or_insert(n.to_string());
         }
     }
-    let mut n = 0;
+    let mut v = vec![];
     for fam in families {
         for existing in fam.iter() {
             let Some(ename) = first_of.get(*existing) else { continue };
@@ -315,30 +284,56 @@ fn check_id_locality_borrowed_names(ctx: &Ctx, name: &str, text: &str, is_cte: b
                 let block = &extra[a..b];
                 let Some(rest) = block.find("\" =") else { continue };
                 let renamed = format!("{}\"{}{}{}", &extra[..a], ename, &block[rest..], &extra[b..]);
-                let t1 = insert_before_end(text, is_cte, &renamed);
-                n += 1;
-                let case = || json!({"part": "id-locality", "file": name, "added": kind, "named_like_the_existing": existing, "name": ename});
-                match corpus::convert_text(&t1, is_cte) {
-                    Outcome::Ok(m1) => {
-                        let ids1 = ids_of(&m1);
-                        for (k, id) in &ids0 {
-                            match ids1.get(k) {
-                                Some(id1) if id1 == id => {}
-                                other => {
-                                    let coll = k.split(':').next().unwrap_or("");
-                                    ctx.violation(&format!("id-locality:{}-changes-when-adding-{}-named-like-a-{}", coll, kind, existing), &format!("{}: id of {} changes from {} to {:?} after appending an unrelated {} that has the name of the {} {:?}", name, k, id, other, kind, existing, ename), case());
-                                    break;
-                                }
-                            }
-                        }
-                    }
-                    Outcome::Err(_) => {}
-                    Outcome::Panic(p) => ctx.violation(&format!("panic:{}", panic_key(&p)), &p, case()),
-                }
+                v.push(Variant { text: insert_before_end(text, is_cte, &renamed), case: json!({"part": "id-locality", "file": name, "added": kind, "named_like_the_existing": existing, "name": ename}), id_key: format!("changes-when-adding-{}-named-like-a-{}", kind, existing), what: format!("after appending an unrelated {} that has the name of the {} {:?}", kind, existing, ename), duplicate_of: None, check_ids: true });
             }
         }
     }
-    n
+    v
+}
+
+/// converts every variant (in parallel) and applies its oracle
+fn run_variants(ctx: &Ctx, name: &str, text: &str, is_cte: bool, variants: Vec<Variant>) -> u64 {
+    let Outcome::Ok(m0) = corpus::convert_text(text, is_cte) else { return 0 };
+    let ids0 = ids_of(&m0);
+    par_for(variants.len() as u64, |i| {
+        let v = &variants[i as usize];
+        let r1 = corpus::convert_text(&v.text, is_cte);
+        if let Some(ty) = &v.duplicate_of {
+            let r2 = std::thread::scope(|s| s.spawn(|| corpus::convert_text(&v.text, is_cte)).join()).unwrap_or(Outcome::Panic("thread".into()));
+            match (&r1, &r2) {
+                (Outcome::Ok(m1), Outcome::Ok(m2)) => {
+                    if m1.as_json().unwrap_or_default() != m2.as_json().unwrap_or_default() {
+                        ctx.violation(&format!("repeat-differs:duplicated-{}", ty), &format!("{}: two conversions of the same document (a {} block written twice) give different JSON", name, ty), v.case.clone());
+                        return;
+                    }
+                }
+                (Outcome::Err(_), Outcome::Err(_)) => {}
+                (Outcome::Panic(_), _) => {}
+                (_, Outcome::Panic(p)) => ctx.violation(&format!("panic:{}", panic_key(p)), p, v.case.clone()),
+                _ => ctx.violation(&format!("repeat-differs:duplicated-{}:ok-vs-error", ty), &format!("{}: one conversion succeeds and the other fails", name), v.case.clone()),
+            }
+        }
+        match r1 {
+            Outcome::Ok(m1) => {
+                if v.check_ids {
+                    let ids1 = ids_of(&m1);
+                    for (k, id) in &ids0 {
+                        match ids1.get(k) {
+                            Some(id1) if id1 == id => {}
+                            other => {
+                                let coll = k.split(':').next().unwrap_or("");
+                                ctx.violation(&format!("id-locality:{}-{}", coll, v.id_key), &format!("{}: id of {} changes from {} to {:?} {}", name, k, id, other, v.what), v.case.clone());
+                                break;
+                            }
+                        }
+                    }
+                }
+            }
+            Outcome::Err(_) => {} // e.g. legacy file without the referenced catalogue names: not an id question
+            Outcome::Panic(p) => ctx.violation(&format!("panic:{}", panic_key(&p)), &p, v.case.clone()),
+        }
+    });
+    variants.len() as u64
 }
 
 fn insert_before_first_floor(text: &str, extra: &str) -> Option<String> {
@@ -449,6 +444,7 @@ fn run_sched_child(ctx: &Ctx, nt: usize, per: usize, bound: &str, cap: u64) -> O
 pub fn run(ctx: &Ctx) -> i32 {
     let mut states = 0u64;
     let mut transitions = 0u64;
+    let t_sec = std::time::Instant::now();
     // ---- 1. histories, each in a fresh process
     let nh: u64 = (N_OPS + N_OPS * N_OPS) as u64 + ctx.tier.pick(36, 216);
     let idxs: Vec<u64> = (0..nh).map(|i| if ctx.tier == Tier::Quick && i >= (N_OPS + N_OPS * N_OPS) as u64 { (N_OPS + N_OPS * N_OPS) as u64 + (i - (N_OPS + N_OPS * N_OPS) as u64) * 6 + 1 } else { i }).collect();
@@ -499,6 +495,7 @@ pub fn run(ctx: &Ctx) -> i32 {
         }
     }
     ctx.sample(json!({"part": "history", "operations": decode_history(N_OPS as u64 + 37).iter().map(|o| OP_NAMES[*o]).collect::<Vec<_>>()}));
+    ctx.note("seconds_until_section_2", json!(t_sec.elapsed().as_secs_f64()));
     // ---- 2. id locality
     let mut loc_n = 0;
     let mut files: Vec<(String, bool)> = corpus::project_dirs().iter().filter_map(|d| corpus::ctehexml_path(d)).map(|p| (p, false)).collect();
@@ -506,36 +503,34 @@ pub fn run(ctx: &Ctx) -> i32 {
     if ctx.tier == Tier::Quick {
         files = files.into_iter().enumerate().filter(|(i, _)| i % 9 == 0).map(|(_, f)| f).collect();
     }
-    let cnt = std::sync::atomic::AtomicU64::new(0);
-    par_for(files.len() as u64, |i| {
-        let (p, is_cte) = &files[i as usize];
-        let text = if *is_cte { corpus::read_latin1(p) } else { corpus::read_utf8(p) };
-        cnt.fetch_add(check_id_locality(ctx, p.rsplit('/').next().unwrap(), &text, *is_cte), std::sync::atomic::Ordering::Relaxed);
-        cnt.fetch_add(check_duplicated_definitions(ctx, p.rsplit('/').next().unwrap(), &text, *is_cte, ctx.tier.pick(1, 2)), std::sync::atomic::Ordering::Relaxed);
-    });
-    loc_n += cnt.load(std::sync::atomic::Ordering::Relaxed);
     {
-        // borrowed names on the smallest real projects (all of them in thorough)
+        // borrowed names on the smallest real projects only in quick (all of them in thorough)
         let mut sized: Vec<&(String, bool)> = files.iter().collect();
         sized.sort_by_key(|(p, _)| std::fs::metadata(p).map(|m| m.len()).unwrap_or(0));
-        let sel: Vec<&(String, bool)> = sized.into_iter().take(ctx.tier.pick(3, usize::MAX)).collect();
-        let cnt = std::sync::atomic::AtomicU64::new(0);
-        par_for(sel.len() as u64, |i| {
-            let (p, is_cte) = sel[i as usize];
+        let borrow: std::collections::BTreeSet<String> = sized.into_iter().take(ctx.tier.pick(3, usize::MAX)).map(|(p, _)| p.clone()).collect();
+        for (p, is_cte) in &files {
             let text = if *is_cte { corpus::read_latin1(p) } else { corpus::read_utf8(p) };
-            cnt.fetch_add(check_id_locality_borrowed_names(ctx, p.rsplit('/').next().unwrap(), &text, *is_cte), std::sync::atomic::Ordering::Relaxed);
-        });
-        loc_n += cnt.load(std::sync::atomic::Ordering::Relaxed);
+            let name = p.rsplit('/').next().unwrap();
+            let mut vs = variants_added(name, &text, *is_cte);
+            vs.extend(variants_duplicated(name, &text, *is_cte, ctx.tier.pick(1, 2)));
+            if borrow.contains(p) {
+                vs.extend(variants_borrowed_names(name, &text, *is_cte));
+            }
+            loc_n += run_variants(ctx, name, &text, *is_cte, vs);
+        }
     }
     for s in projgen::all_specs(Tier::Quick).iter().step_by(ctx.tier.pick(97, 11)) {
-        loc_n += check_id_locality(ctx, &format!("generated {:?}", s), &projgen::ctehexml_text(s), false);
-        loc_n += check_duplicated_definitions(ctx, &format!("generated {:?}", s), &projgen::ctehexml_text(s), false, 2);
-        loc_n += check_id_locality_borrowed_names(ctx, &format!("generated {:?}", s), &projgen::ctehexml_text(s), false);
+        let (name, text) = (format!("generated {:?}", s), projgen::ctehexml_text(s));
+        let mut vs = variants_added(&name, &text, false);
+        vs.extend(variants_duplicated(&name, &text, false, 2));
+        vs.extend(variants_borrowed_names(&name, &text, false));
+        loc_n += run_variants(ctx, &name, &text, false, vs);
     }
     ctx.eval(loc_n);
     ctx.nontriv(loc_n);
     transitions += loc_n;
     ctx.sample(json!({"part": "id-locality", "file": "cubo.ctehexml", "added": "SCHEDULE-PD (+ its week and day)", "oracle": "every pre-existing (collection, name) keeps its id"}));
+    ctx.note("seconds_until_section_3", json!(t_sec.elapsed().as_secs_f64()));
     // ---- 3. schedules
     let mut sched_notes = vec![];
     let configs: Vec<(usize, usize, &str, u64)> = match ctx.tier {
@@ -581,6 +576,7 @@ pub fn run(ctx: &Ctx) -> i32 {
         }
         ctx.note("free_running_sampling", json!({"rounds": rounds, "threads": 16, "labelled": "sampling complement, can only add violations"}));
     }
+    ctx.note("seconds_until_section_4", json!(t_sec.elapsed().as_secs_f64()));
     // ---- 4. reference pairs
     let pairs = [("cubo/cubo.ctehexml", "cubo.json"), ("e4h_medianeras/e4h_medianeras.ctehexml", "e4h_medianeras.json"), ("casoA/casoa.ctehexml", "caso_a.json"), ("ejemploviv_unif/ejemploviv_unif.ctehexml", "ejemploviv_unif.json"), ("ejemplo_gt_aerotermia/ejemplo_gt_aerotermia.ctehexml", "ejemplo_gt_aerotermia.json"), ("cubo_gt_caldera_radiadores/cubo_gt_caldera_radiadores.ctehexml", "cubo_gt_caldera_radiadores.json")];
     for (proj, model) in pairs {
